@@ -95,11 +95,25 @@ func c20R1(c *Ctx, rule string) {
 				// some store to the target in ProcessRawConfig is control-dependent on a condition reached from the option
 				found := ""
 				for _, s := range FieldStores(p, tf) {
-					if s.Parent() != prc {
+					if s.Parent() != prc && !p.inUnit(prc, s.Parent()) {
 						continue
 					}
+					// the stored value is chosen by a helper split off from ProcessRawConfig: its branches count
+					sv := s.Val
+					if ex, isEx := sv.(*ssa.Extract); isEx {
+						sv = ex.Tuple
+					}
+					if call, isC := sv.(*ssa.Call); isC {
+						if hg := call.Call.StaticCallee(); hg != nil && p.inUnit(prc, hg) {
+							allInstrs(hg, func(i ssa.Instruction) {
+								if iff, ok := i.(*ssa.If); ok && g.BackReach(append([]vnode{g.val(iff.Cond, nil)}, g.clones[iff.Cond]...)...)[fieldNode{f}] {
+									found = "store at " + c.at(s) + " takes the value chosen by " + shortFn(hg) + " under " + Expr(iff.Cond)
+								}
+							})
+						}
+					}
 					for _, gd := range GuardsOf(s.Block()) {
-						if g.BackReach(g.val(gd.Cond, nil))[fieldNode{f}] {
+						if g.BackReach(append([]vnode{g.val(gd.Cond, nil)}, g.clones[gd.Cond]...)...)[fieldNode{f}] {
 							found = "store at " + c.at(s) + " is controlled by " + NormCond(gd.Cond, gd.Pol).String()
 						}
 					}
@@ -107,7 +121,7 @@ func c20R1(c *Ctx, rule string) {
 					if found == "" {
 						for d := s.Block().Idom(); d != nil; d = d.Idom() {
 							if iff, ok := d.Instrs[len(d.Instrs)-1].(*ssa.If); ok {
-								if g.BackReach(g.val(iff.Cond, nil))[fieldNode{f}] {
+								if g.BackReach(append([]vnode{g.val(iff.Cond, nil)}, g.clones[iff.Cond]...)...)[fieldNode{f}] {
 									found = "store at " + c.at(s) + " is below the branch " + Expr(iff.Cond)
 								}
 							}
@@ -183,7 +197,7 @@ func toConst(v interface{}) constant.Value {
 }
 
 func c20SCCP(p *Prog, prc *ssa.Function, assume map[string]interface{}) *SCCP {
-	s := &SCCP{F: prc, AssumeField: map[*types.Var]constant.Value{}, AssumeLen: map[*types.Var]int64{}}
+	s := &SCCP{F: prc, P: p, AssumeField: map[*types.Var]constant.Value{}, AssumeLen: map[*types.Var]int64{}}
 	set := func(name string, v interface{}) {
 		if fv := p.Field("internal/client", "RawConfig", name); fv != nil {
 			s.AssumeField[fv] = toConst(v)
